@@ -198,6 +198,14 @@ def eval_helper(case):
         inner = {0: inner, 1: '[' + inner + ']', 2: '(' + inner + ')'}[br]
         forms['string'] = lambda: prefix + word + '(' + inner + ')'
     desc = '%s %s %r' % (kind, comp, args)
+    # a helper result belongs to the caller: changing it must not change what the next call (or the string form) gives
+    first = forms['generic']()
+    if isinstance(first, list):
+        first.append(AnsiSetting('9'))
+        del first[0]
+        again = forms['generic']()
+        if [str(x) for x in again] != exp:
+            o.fail('helper-result-shared', '%s: after changing the list returned by the helper, the next call returns %r' % (desc, [str(x) for x in again]))
     for k, mk in forms.items():
         f = mk()
         try:
@@ -422,10 +430,18 @@ def strat_mutated():
 
 
 # ---------------------------------------------------------------- spellings inside a history
-HIST_NAMES = ['red', 'blue', 'bold', 'faint', 'underline', 'bg_red', 'orange', 'ul_red', 'no_bold_faint', 'fg_default']
+HIST_NAMES = ['red', 'blue', 'bold', 'faint', 'underline', 'bg_red', 'orange', 'ul_red', 'no_bold_faint', 'fg_default',
+              '@rgb', '@c256', '@ulrgb']
+HELPER_SPELLINGS = {
+    '@rgb': (lambda: AnsiFormat.rgb(10, 20, 30), ['rgb(10,20,30)', 'rgb(10, 20, 30)', 'fg_rgb(0x0a,20,30)', 'rgb(0x0a141e)', '38;2;10;20;30', [38, 2, 10, 20, 30]]),
+    '@c256': (lambda: AnsiFormat.bg_color256(17), ['bg_color256(17)', 'bg_colour256(0x11)', '48;5;17', [48, 5, 17], 'bg_color256([17])']),
+    '@ulrgb': (lambda: AnsiFormat.ul_rgb(1, 2, 3), ['ul_rgb(1,2,3)', 'ul_rgb((1,2,3))', '4;58;2;1;2;3', [4, 58, 2, 1, 2, 3]]),
+}
 
 
 def spell(name, how):
+    if name.startswith('@'):
+        return HELPER_SPELLINGS[name][1][how % len(HELPER_SPELLINGS[name][1])]
     member = AnsiFormat[name.upper()]
     texts = [str(x) for x in member.ansi_settings]
     ints = [int(x) for t in texts for x in t.split(';')]
@@ -443,7 +459,7 @@ def eval_history(case):
     alt_s = AnsiStr(t)
     for st_ in case['steps']:
         name, how, a, b, top, rm = st_['n'], st_['how'], st_['a'], st_['b'], st_['top'], st_['rm']
-        m = AnsiFormat[name.upper()]
+        m = HELPER_SPELLINGS[name][0]() if name.startswith('@') else AnsiFormat[name.upper()]
         f = spell(name, how)
         if rm:
             ref.remove_formatting(m, a, b)
